@@ -248,6 +248,38 @@ pub fn run(tier: Tier) -> i32 {
             }
         }
     }
+    // every order of the fields of the table, for configurations with and without an unlisted default, inherits
+    // entries naming it, namespaces and a custom directory: the outcome is a function of the content only
+    {
+        let mut n_orders = 0u64;
+        for l in [vec!["en", "fr"], vec!["fr"], vec!["fr", "de"]] {
+            for ns in [None, Some(vec!["a".to_string(), "b".to_string()])] {
+                for inh in [vec![], vec![("fr", "en")], vec![("fr", "en"), ("de", "fr")]] {
+                    if inh.iter().any(|(k, _)| !l.contains(k)) {
+                        continue;
+                    }
+                    for dir in [None, Some("l10n".to_string())] {
+                        let n_fields = 2 + ns.is_some() as usize + !inh.is_empty() as usize + dir.is_some() as usize;
+                        let n_perms: usize = (1..=n_fields).product();
+                        for fo in 0..n_perms {
+                            let cfg = Config {
+                                default: Some("en".into()),
+                                locales: Some(l.iter().map(|s| s.to_string()).collect()),
+                                namespaces: ns.clone(),
+                                inherits: inh.iter().map(|(a, b)| (a.to_string(), b.to_string())).collect(),
+                                locales_dir: dir.clone(),
+                                field_order: fo,
+                                ..Default::default()
+                            };
+                            cases.push(Case { cfg, surround: fo % SURROUNDS });
+                            n_orders += 1;
+                        }
+                    }
+                }
+            }
+        }
+        rep.count("field_order_cases", n_orders);
+    }
     let ext = build_format().ext();
     let classes = Mutex::new(BTreeMap::<String, u64>::new());
     let nontriv = Mutex::new(BTreeSet::<String>::new());
@@ -336,7 +368,7 @@ pub fn run(tier: Tier) -> i32 {
         rep.sample(json!({"manifest": manifest(&cases[j].cfg, cases[j].surround), "expectation": format!("{:?}", expectation(&cases[j].cfg))}));
     }
     let mut cov = serde_json::Map::new();
-    cov.insert("rule".into(), json!("locales in {missing} + every list of length 0..=3 over {en,fr,de} (duplicates included) x default in {en,fr,de,it (unlisted),missing} x namespaces in {absent,[a],[a,b],[b,a],[a,a],[]} x inherits in {none} + every single entry over {en,fr,de,it,xx}^2 (thorough: + five 2-entry maps) x (locales-dir in {absent,./l10n,a/b/,l10n/,locales,../shared_l10n,.hidden,./.dot/x,..//up,an absolute path} x 5 surrounding-manifest shapes x unknown fields: rotated in quick, a third of the product in thorough); the directory holds valid files for exactly the expected (namespace, locale) pairs and unparsable decoys everywhere else (other extension, unlisted locale/namespace, default dir when a custom one is set, top-level vs namespace layout); oracle: accept iff required fields present, no duplicates, inherits names known locales (the default counts even if unlisted) and not the default as key; on accept default first, same set, fields as written, tracked files == expected paths; distinct_nontrivial = distinct i18n tables"));
+    cov.insert("rule".into(), json!("locales in {missing} + every list of length 0..=3 over {en,fr,de} (duplicates included) x default in {en,fr,de,it (unlisted),missing} x namespaces in {absent,[a],[a,b],[b,a],[a,a],[]} x inherits in {none} + every single entry over {en,fr,de,it,xx}^2 (thorough: + five 2-entry maps) x (locales-dir in {absent,./l10n,a/b/,l10n/,locales,../shared_l10n,.hidden,./.dot/x,..//up,an absolute path} x 5 surrounding-manifest shapes x unknown fields: rotated in quick, a third of the product in thorough); plus every order of the table's fields for 36 configurations (unlisted default, inherits entries naming it, namespaces, custom directory); the directory holds valid files for exactly the expected (namespace, locale) pairs and unparsable decoys everywhere else (other extension, unlisted locale/namespace, default dir when a custom one is set, top-level vs namespace layout); oracle: accept iff required fields present, no duplicates, inherits names known locales (the default counts even if unlisted) and not the default as key; on accept default first, same set, fields as written, tracked files == expected paths; distinct_nontrivial = distinct i18n tables"));
     cov.insert("exhaustive".into(), json!(true));
     cov.insert("outcome_classes".into(), json!(*classes.lock().unwrap()));
     cov.insert("front_end".into(), json!(ext));
